@@ -54,8 +54,60 @@ def gen_cases(tier, seed):
     return cases
 
 
+PY2_TAINTS = [
+    "def runner(code_text):\n    exec code_text\n    local_value = 1\n    other_value = local_value + 1\n    return local_value, other_value\nprint runner('pass')\n",
+    "def runner(code_text, namespace_dict):\n    exec code_text in namespace_dict\n    local_value = 'a repeated literal value'\n    return local_value, 'a repeated literal value', 'a repeated literal value'\n",
+    "class Holder:\n    def method(self, argument_value):\n        exec 'pass'\n        inner_value = argument_value\n        return inner_value\n",
+    "def importer():\n    from os.path import *\n    joined_value = join('a', 'b')\n    return joined_value\nprint importer()\n",
+    "def outer_function():\n    def inner_function(parameter_value):\n        exec 'x = 1'\n        return parameter_value\n    return inner_function(1)\nmodule_level_value = outer_function()\n",
+    "module_value = 1\ndef reader():\n    local_copy = module_value\n    return local_copy\nexec 'module_value = 2'\nprint reader()\n",
+]
+
+
+def cross_version_cases(seed, n):
+    r = common.rng(seed, 'C09-x')
+    out = []
+    for s in PY2_TAINTS:
+        for j in range(3):
+            o = dict(rename_locals=True, rename_globals=r.random() < 0.7, hoist_literals=True)
+            out.append({'op': 'frozen', 'shape': 'py2-taint', 'src': s, 'opts': o})
+    for i in range(n):
+        base = r.choice(taintgen.BASE_PROGRAMS)
+        trig = r.choice(taintgen.TRIGGER_EXPRS)
+        tag, tmpl = r.choice([p for p in taintgen.POSITIONS if p[0] not in ('fstring', 'walrus', 'annotation')])
+        chunk = tmpl.replace('{T}', trig).replace('{C}', taintgen.call_of(trig))
+        out.append({'op': 'frozen', 'shape': 'taint.%s.%s' % (trig, tag), 'src': base + chunk + '\n',
+                    'opts': dict(rename_locals=True, rename_globals=r.random() < 0.7, hoist_literals=True, remove_argument_annotations=False)})
+    return out
+
+
 def main(tier, seed):
     run = runner.Run(PROP, tier, seed)
+    # ---- every interpreter: identifiers frozen (covers the python 2 exec statement and function-level star imports)
+    import os as _os
+    xcases = cross_version_cases(seed, 120 if tier == 'quick' else 1500)
+    for version, py in common.interpreters():
+        if version == '3.12-venv':
+            continue
+        if tier == 'quick' and version not in ('2.7.18', '3.6.15', '3.9.18', '3.13.0'):
+            continue
+
+        def on_x(c, r, version=version):
+            out = {'status': r.get('status'), 'reason': r.get('reason'), 'violations': [], 'counters': {}, 'nontrivial': []}
+            if 'inconclusive' in r and r.get('status') is None:
+                out = r
+            if r.get('status') == 'error':
+                out = {'status': 'inconclusive', 'reason': 'minify raised (C08)'}
+            if r.get('status') == 'held':
+                out['counters']['cross_version_frozen_checks'] = 1
+                out['nontrivial'] = ['x|%s|%s' % (version, common.sha(c['src']))]
+            for v in r.get('violations') or []:
+                out['violations'].append({'mech': None, 'detail': '%s: tainted module but %s' % (version, v['detail']), 'witness': {'out': r.get('out'), 'interpreter': version}})
+            run.add({'shape': c['shape'], 'interpreter': version, 'src': c['src'], 'opts': c['opts'], 'layer': 'cross-version'}, out)
+        env = common.clean_env()
+        env['PYTHONPATH'] = common.REPO_SRC
+        pool.run_cases(xcases, None, cmd=[py, '-W', 'ignore', _os.path.join(common.VERIF, 'vf', 'compat_worker.py')], env=env, timeout=20, batch=25, on_result=on_x,
+                       deadline=run.deadline)
 
     def on(c, r):
         slim = {'shape': c['shape'], 'opts': c['opts']}
@@ -71,12 +123,27 @@ def main(tier, seed):
              'attribute base, f-string, after a local import, annotation, method, walrus ...), before or after the program, with every name-touching '
              'option mostly on; non-trivial/distinct = distinct (source, options) whose trigger-free base program is renamed or hoisted',
         assumptions=['the generated trigger name is never bound in the program, so it resolves to the builtin (checked with the scope resolver)'],
-        min_nontrivial=100, required_counters=['matcher_runs', 'tainted_inputs', 'base_program_is_renamed_or_hoisted_without_trigger'])
+        min_nontrivial=100, required_counters=['matcher_runs', 'tainted_inputs', 'base_program_is_renamed_or_hoisted_without_trigger', 'cross_version_frozen_checks'])
 
 
 def replay(path):
     w = runner.load_replay(path)
     c = dict(w['case'])
+    if c.get('layer') == 'cross-version':
+        import json
+        import subprocess
+        import os as _os
+        py = dict(common.interpreters())[c['interpreter']]
+        env = common.clean_env()
+        env['PYTHONPATH'] = common.REPO_SRC
+        p = subprocess.run([py, '-W', 'ignore', _os.path.join(common.VERIF, 'vf', 'compat_worker.py')],
+                           input=(json.dumps({'batch': [{'op': 'frozen', 'src': c['src'], 'opts': c['opts']}]}) + '\n').encode(), stdout=subprocess.PIPE, env=env, timeout=120)
+        r = json.loads(p.stdout.decode())['batch'][0]
+        print(json.dumps(r, indent=1)[:2000])
+        if r.get('violations'):
+            print('VIOLATION property=%s replay=%s' % (PROP, path))
+            return 1
+        return 0
     c['prop'] = PROP
     r = run_case(c)
     import json
